@@ -14,7 +14,7 @@ Open Scope Z_scope.
    every id of the table and every key, the new value is the mapping's value when the mapping
    names that id and that key, and the old value otherwise (ids of the mapping that are not in
    the table appear nowhere); the axis has no metadata afterwards iff it had none and the
-   mapping names none of its ids. *)
+   mapping gives none of its ids a non-empty entry (_cast_metadata after repair 16e406b1). *)
 Theorem add_md_local :
   forall t m a, mwf t -> mapping_wf m ->
   let t' := add_metadata t m a in
@@ -26,7 +26,7 @@ Theorem add_md_local :
           | Some e => match aget e k with Some v => Some v | None => md_lookup t a id k end
           | None => md_lookup t a id k
           end)
-  /\ (m_mds a t' = None <-> m_mds a t = None /\ forall id, In id (m_ids a t) -> mlookup id m = None).
+  /\ (m_mds a t' = None <-> m_mds a t = None /\ forall id, In id (m_ids a t) -> opt_empty (mlookup id m) = true).
 Proof. exact add_md_local_proof. Qed.
 Print Assumptions add_md_local.
 
@@ -40,6 +40,29 @@ Print Assumptions add_then_lookup.
 Theorem add_md_keeps_table : forall t m a, mwf t -> mwf (add_metadata t m a).
 Proof. exact add_metadata_wf. Qed.
 Print Assumptions add_md_keeps_table.
+
+(* Histories over several tables, where a mapping entry may be the metadata object that some
+   table holds for an id (t.add_metadata({'S1': ref.metadata('R1')})): a step changes no table
+   but its receiver - not the donor, not a sibling - and on the receiver it is add_metadata /
+   del_metadata with the referenced entries taken by value, so add_md_local / del_md_local
+   hold step after step (two ids that were given the same object stay independent). *)
+Theorem history_step_frame :
+  forall ts i j, j <> target i -> nth j (mstep ts i) mt_empty = nth j ts mt_empty.
+Proof. exact mstep_frame_proof. Qed.
+Print Assumptions history_step_frame.
+
+Theorem history_add_is_add_by_value :
+  forall ts ti a m, (ti < length ts)%nat ->
+  nth ti (mstep ts (IAdd ti a m)) mt_empty
+  = add_metadata (nth ti ts mt_empty) (map (fun p => (fst p, resolve ts (snd p))) m) a.
+Proof. exact mstep_add_target_proof. Qed.
+Print Assumptions history_add_is_add_by_value.
+
+Theorem history_del_is_del :
+  forall ts ti keys s, (ti < length ts)%nat ->
+  nth ti (mstep ts (IDel ti keys s)) mt_empty = del_metadata (nth ti ts mt_empty) keys s.
+Proof. exact mstep_del_target_proof. Qed.
+Print Assumptions history_del_is_del.
 
 (* Deleting keys (None = all keys): ids, order, matrix untouched; an axis that is not chosen is
    untouched; on a chosen axis exactly the named keys disappear, for every id. *)
